@@ -86,16 +86,20 @@ def trimPrefix (s pre : Bytes) : Bytes := (cutPrefix s pre).getD s
 
 def pathBase : Int := 1000
 
-/-- the `for n >= pathBase` loop; an int64 needs at most 6 rounds -/
+/-- Go's `a % b` (remainder of truncated division) for `b > 0` -/
+def goMod (a b : Int) : Int := if 0 ≤ a then a % b else -((-a) % b)
+
+/-- the `for n >= pathBase` loop (`n /= pathBase` only runs on positive n, where every division
+convention agrees); an int64 needs at most 6 rounds -/
 def nStrLoop : Nat → Int → Bytes → Bytes
   | 0, _, acc => acc
   | fuel+1, n, acc =>
     if n ≥ pathBase then
-      let n' := n.tdiv pathBase
-      nStrLoop fuel n' (120 :: fmt03 (n'.tmod pathBase) ++ 47 :: acc)
+      let n' := n / pathBase
+      nStrLoop fuel n' (120 :: fmt03 (goMod n' pathBase) ++ 47 :: acc)
     else acc
 
-def nStr (n : Int) : Bytes := nStrLoop 7 n (fmt03 (n.tmod pathBase))
+def nStr (n : Int) : Bytes := nStrLoop 7 n (fmt03 (goMod n pathBase))
 
 /-- Go `1 << uint(h)` on a 64-bit `int` -/
 def shl1 (h : Int) : Int :=
@@ -115,34 +119,40 @@ def parseN : List Bytes → Int → Option Int
     | none => none
     | some nn => if nn < 0 ∨ nn ≥ pathBase then none else parseN rest (wrap64 (n * pathBase + nn))
 
-def tlogParse (path : Bytes) : Option Tile :=
+/-- everything of `ParseTilePath` before the final `path != t.Path()` test. `f` is handled through its
+reverse: `f[len(f)-1]` and `f[len(f)-2]` are the first two elements of `f.reverse`. -/
+def tlogParsePrelim (path : Bytes) : Option Tile :=
   let f := split 47 path
   if f.length < 4 ∨ f.getD 0 [] ≠ ascii "tile" then none else
   let isData := f.getD 2 [] = ascii "data"
-  let f2 := if isData then ascii "0" else f.getD 2 []
-  let f := f.set 2 f2
-  match atoi (f.getD 1 []), atoi f2 with
+  let f := if isData then f.set 2 (ascii "0") else f
+  match atoi (f.getD 1 []), atoi (f.getD 2 []) with
   | some h, some l =>
     if h < 1 ∨ l < 0 ∨ h > 30 then none else
     let w := shl1 h
-    let dotP := f.getD (f.length - 2) []
-    let wf : Option (Int × List Bytes) :=
-      if hasSuffix dotP (ascii ".p") then
-        match atoi (f.getD (f.length - 1) []) with
-        | none => none
-        | some ww =>
-          if ww ≤ 0 ∨ ww ≥ w then none
-          else some (ww, (f.set (f.length - 2) (dotP.take (dotP.length - 2))).take (f.length - 1))
-      else some (w, f)
-    match wf with
-    | none => none
-    | some (w, f) =>
-      match parseN (f.drop 3) 0 with
+    match f.reverse with
+    | last :: dotP :: before =>
+      let wf : Option (Int × List Bytes) :=
+        if hasSuffix dotP (ascii ".p") then
+          match atoi last with
+          | none => none
+          | some ww =>
+            if ww ≤ 0 ∨ ww ≥ w then none
+            else some (ww, (dotP.take (dotP.length - 2) :: before).reverse)
+        else some (w, f)
+      match wf with
       | none => none
-      | some n =>
-        let t : Tile := { H := h, L := if isData then -1 else l, N := n, W := w }
-        if path ≠ tlogPath t then none else some t
+      | some (w, f) =>
+        match parseN (f.drop 3) 0 with
+        | none => none
+        | some n => some { H := h, L := if isData then -1 else l, N := n, W := w }
+    | _ => none
   | _, _ => none
+
+def tlogParse (path : Bytes) : Option Tile :=
+  match tlogParsePrelim path with
+  | none => none
+  | some t => if path ≠ tlogPath t then none else some t
 
 /-! ## sunlight.TilePath / ParseTilePath -/
 
